@@ -155,6 +155,17 @@ fn siblings(acc: &mut Acc, inst: i128, d: i128, offs: &[i32]) {
         let wantd = if tz >= MIN_DAY as i128 && tz <= MAX_DAY as i128 { Some(mk_date(tz as i64)) } else { None };
         sib(acc, "NaiveDate:assign-TimeDelta", guard(|| { let mut x = date; if neg { x -= td } else { x += td }; x }), wantd, || format!("x = NaiveDate({:?}); x {} TimeDelta({} ns)", date, sign, d));
     }
+    // std::time::Duration operands beyond what a TimeDelta can hold: never representable, so these forms must panic
+    // (once per state)
+    if d == 0 {
+        for big in [u64::MAX, 1 << 63, (1 << 63) - 1, i64::MAX as u64 / 1000 + 1, (1 << 32) * 86_400, ((MAX_INST - MIN_INST) / NS) as u64 + 1] {
+            let sd = std::time::Duration::new(big, 0);
+            sib(acc, "NaiveDateTime:op-std-Duration:huge", guard(|| s + sd), None, || format!("NaiveDateTime({}) + std Duration({} s)", show(inst), big));
+            sib(acc, "NaiveDateTime:op-std-Duration:huge", guard(|| s - sd), None, || format!("NaiveDateTime({}) - std Duration({} s)", show(inst), big));
+            sib(acc, "DateTime:op-std-Duration:huge", guard(|| dt + sd), None, || format!("DateTime({}Z at {}) + std Duration({} s)", show(inst), fo0, big));
+            sib(acc, "DateTime:op-std-Duration:huge", guard(|| dt - sd), None, || format!("DateTime({}Z at {}) - std Duration({} s)", show(inst), fo0, big));
+        }
+    }
     // FixedOffset operands: a shift by the offset's seconds
     for &o in offs {
         let fo = FixedOffset::east_opt(o).unwrap();
